@@ -474,6 +474,8 @@ func runC17(c *Ctx, r *Report) {
 	importRules(c, r, "C02", []string{"R-C02.7"}, "R-C17.11")
 	r.Doc("R-C17.12", "the heads a merge stores are searched among both head sets on every path (adopted from C02: a head dropped by a merge is named by no later append and reached by no later manifest — a manifest hash returned after the merge does not load to the log state of that moment)")
 	importRules(c, r, "C02", []string{"R-C02.3"}, "R-C17.12")
+	r.Doc("R-C17.13", "every function that hands out the identifier of an entry or a manifest has written the block on the way (an identifier computed without the write names a block the store may not hold)")
+	identifiersComeFromAWrite(c, r, "R-C17.13")
 	r.Doc("R-C17.9", "the codec objects shared by logs that append through one link-sealing codec are concurrency-safe (adopted from C18: a stateful marshaller shared by overlapping appends writes blocks whose sealed links are truncated or belong to another entry, and the returned hash no longer loads)")
 	importRules(c, r, "C18", []string{"R-C18.7"}, "R-C17.9", 0)
 	errDiscipline(c, r, "R-C17.6", func(fn *Fn) bool {
